@@ -24,10 +24,12 @@ pub mod etag_spec {
     pub enum Step { End, Corrupt, Item(Seq<u8>, Seq<u8>) }
     /// One element of `1#entity-tag` (RFC 7230 7: `element *( OWS "," OWS element )`): an entity-tag is `[W/]"` opaque `"`
     /// where the opaque part cannot contain `"` (so commas and spaces inside a tag belong to the tag); after it OWS, a `,`
-    /// and OWS lead to the next element.  OWS after the last tag is tolerated (a sender may not produce it, the usual
-    /// HTTP parsers strip it); anything else after a tag is left in place and makes the next step corrupt, except
-    /// that a tag may follow a tag directly (tolerated, as before).
-    pub open spec fn list_step(rem: Seq<u8>) -> Step {
+    /// and OWS lead to the next element.  OWS after the LAST tag is not sender grammar (the usual HTTP parsers strip it): a
+    /// recipient may tolerate it (`tol`: the list ends there) or not (the OWS stays and the next step is corrupt) - both are
+    /// allowed (`next_post`), and the properties are only stated for lists on which the two readings agree (`wf_list`).
+    /// Anything else after a tag is left in place and makes the next step corrupt, except that a tag may follow a tag directly.
+    pub open spec fn list_step(rem: Seq<u8>) -> Step { list_step_g(rem, true) }
+    pub open spec fn list_step_g(rem: Seq<u8>, tol: bool) -> Step {
         if rem.len() == 0 { Step::End } else {
             let start: int = if rem.len() >= 3 && rem[0] == 0x57u8 && rem[1] == 0x2fu8 && rem[2] == 0x22u8 { 3 } else if rem[0] == 0x22u8 { 1 } else { -1 };
             if start < 0 { Step::Corrupt } else {
@@ -36,7 +38,7 @@ pub mod etag_spec {
                     Some(q) => {
                         let rest0 = rem.subrange(q + 1, rem.len() as int);
                         let r1 = skip_ows(rest0);
-                        let rest = if r1.len() > 0 && r1[0] == 0x2cu8 { skip_ows(r1.subrange(1, r1.len() as int)) } else if r1.len() == 0 { r1 } else { rest0 };
+                        let rest = if r1.len() > 0 && r1[0] == 0x2cu8 { skip_ows(r1.subrange(1, r1.len() as int)) } else if r1.len() == 0 && tol { r1 } else { rest0 };
                         Step::Item(rem.subrange(0, q + 1), rest)
                     }
                 }
@@ -52,7 +54,8 @@ pub mod etag_spec {
         decreases s.len()
     { if s.len() > 0 && (s[0] == 0x20u8 || s[0] == 0x09u8) { lemma_skip_ows_len(s.subrange(1, s.len() as int)); } }
     pub proof fn lemma_step_shrinks(rem: Seq<u8>)
-        ensures list_step(rem) matches Step::Item(t, rest) ==> rest.len() < rem.len() && t.len() > 0
+        ensures list_step(rem) matches Step::Item(t, rest) ==> rest.len() < rem.len() && t.len() > 0,
+                list_step_g(rem, false) matches Step::Item(t, rest) ==> rest.len() < rem.len() && t.len() > 0,
     {
         if rem.len() > 0 {
             let start: int = if rem.len() >= 3 && rem[0] == 0x57u8 && rem[1] == 0x2fu8 && rem[2] == 0x22u8 { 3 } else if rem[0] == 0x22u8 { 1 } else { -1 };
@@ -81,6 +84,22 @@ pub mod etag_spec {
             } else { (false, true) }
         }
     }
+    /// A well-formed list (C04: "with well-formed validators"): it scans to its end without a corrupt step, and no step
+    /// depends on whether OWS after the last tag is tolerated.
+    pub open spec fn wf_list(rem: Seq<u8>) -> bool
+        decreases rem.len()
+    {
+        match list_step(rem) {
+            Step::End => true,
+            Step::Corrupt => false,
+            Step::Item(t, rest) => rest.len() < rem.len() && list_step_g(rem, false) == list_step(rem) && wf_list(rest),
+        }
+    }
+    pub proof fn lemma_wf_not_corrupt(rem: Seq<u8>, etag: Seq<u8>, weak: bool)
+        requires wf_list(rem)
+        ensures !scan(rem, etag, weak).1
+        decreases rem.len()
+    { if let Step::Item(t, rest) = list_step(rem) { lemma_wf_not_corrupt(rest, etag, weak); } }
     pub open spec fn is_star(m: Seq<u8>) -> bool { m.len() == 1 && m[0] == 0x2au8 }
 
     /// If-Match (C04): Ok(passes) or Err (unparseable list -> 400).
